@@ -113,11 +113,13 @@ class SerialiseFamily(ScenarioFamily):
 
     def generate(self, seed, index, tier):
         r = gen.mk_rng(seed, "c03")
-        mode = ["plain", "plain", "plain", "double-assign", "goaway"][index % 5]
+        mode = ["plain", "plain", "plain", "double-assign", "goaway", "forward"][index % 6]
         h2 = mode == "goaway" or (mode == "plain" and r.random() < 0.45)
         tls = h2 or mode == "double-assign" or r.random() < 0.2
         if h2 and mode == "plain" and r.random() < 0.3:
             tls = False
+        if mode == "forward":
+            h2 = tls = False
         scheme, port = ("https", 443) if tls else ("http", 80)
         host = "a.test"
         pool = {"max_connections": r.choice([1, 2, 4])}
@@ -138,7 +140,32 @@ class SerialiseFamily(ScenarioFamily):
                                                        "conn_first", "batched"]),
                         "wu_step": r.choice([1, 7, 100, 5000])}
         callers = []
-        if mode == "plain":
+        fwd = None
+        if mode == "forward":
+            # through a forwarding HTTP proxy: the same request in absolute-form, the
+            # proxy's own headers first (those the caller overrides dropped)
+            ph = []
+            for _ in range(r.randint(0, 3)):
+                ph.append([rnd_name(r), rnd_value(r)])
+            auth = ["user", "p:ss"] if r.random() < 0.4 else None
+            pool["proxy"] = {"url": "http://px.test:3128", "headers": ph}
+            if auth:
+                pool["proxy"]["auth"] = auth
+            if r.random() < 0.3:
+                pool["proxy"]["style"] = "legacy"
+            fwd = {"headers": ph, "auth": auth}
+            ops = []
+            for i in range(r.randint(1, 3)):
+                op = gen_request(r, i, scheme, host, False)
+                op.pop("target", None)
+                if ph and r.random() < 0.4:
+                    # the caller overrides one of the proxy's headers (any case)
+                    k = r.choice(ph)[0]
+                    op["headers"].insert(r.randint(0, len(op["headers"])),
+                                         [k.swapcase() if r.random() < 0.5 else k, rnd_value(r)])
+                ops.append(op)
+            callers = [{"ops": ops}]
+        elif mode == "plain":
             ops = []
             for i in range(r.randint(1, 4)):
                 op = gen_request(r, i, scheme, host, h2)
@@ -170,7 +197,9 @@ class SerialiseFamily(ScenarioFamily):
                        "seg": r.choice(["whole", "random", "segment"]),
                        "endpoints": {f"{host}:{port}": ep}},
                "callers": callers, "epilogue": ["close_pool"],
-               "c03": {"mode": mode, "h2": h2}}
+               "c03": {"mode": mode, "h2": h2, "forward": fwd}}
+        if fwd is not None:
+            scn["net"]["endpoints"]["px.test:3128"] = {"kind": "http_proxy"}
         if h2:
             w1 = ep["h2"]["settings"].get("initial_window_size", 65535)
             for c in callers:
@@ -266,13 +295,27 @@ def serialise_oracle(res, scn):
             return
         body = call["body"]
         digest = hashlib.sha256(body).hexdigest()[:16]
+        fwd = scn["c03"].get("forward")
         for e in h1.get(tok, []):
             method, target, headers, blen, bsha = e[7], e[8], list(e[9]), e[10], e[11]
             want_h = host_first(expected_headers(call, False))
             if method != op["method"].encode():
                 w.violate("C03", "h1:method-altered", {"got": method})
                 return
-            if target != target_of(op):
+            if fwd is not None:
+                import base64
+
+                ph = [(k.encode(), v.encode()) for k, v in fwd["headers"]]
+                if fwd["auth"]:
+                    cred = base64.b64encode(":".join(fwd["auth"]).encode())
+                    ph = [(b"Proxy-Authorization", b"Basic " + cred)] + ph
+                over = {k.lower() for k, v in want_h}
+                want_h = host_first([(k, v) for k, v in ph if k.lower() not in over] + want_h)
+                if target != op["url"].encode():
+                    w.violate("C03", "h1:forward-target-altered" + _params(target, op["url"].encode()),
+                              {"got": target, "want": op["url"]})
+                    return
+            elif target != target_of(op):
                 w.violate("C03", "h1:target-altered" + _params(target, target_of(op)),
                           {"got": target, "want": target_of(op)})
                 if not _params(target, target_of(op)):
